@@ -5,6 +5,7 @@ package c04
 
 import (
 	"fmt"
+	"sort"
 	"strings"
 	"testing"
 
@@ -146,11 +147,35 @@ func checkAPI(c Case, o *vf.Obs) error {
 		}
 		cs = append(cs, maxsat.Constr{Lits: lits, Coeffs: co, AtLeast: mc.AtLeast, Weight: mc.Weight})
 	}
-	arenaBefore := append([]int{}, arena...)
+	// what the caller's values *mean* must survive a call (the same values are used again right after): each
+	// constraint as a sorted list of (literal, coefficient) pairs with its degree and weight. A library that reordered
+	// a constraint's literals and coefficients together would pass; one that writes into a neighbour's cells, or
+	// reorders one slice only, does not.
+	meaning := func() string {
+		var sb strings.Builder
+		for _, k := range cs {
+			var terms []string
+			for i, l := range k.Lits {
+				co := 1
+				if k.Coeffs != nil {
+					if i >= len(k.Coeffs) {
+						terms = append(terms, "?")
+						continue
+					}
+					co = k.Coeffs[i]
+				}
+				terms = append(terms, fmt.Sprintf("%d*%v", co, l))
+			}
+			sort.Strings(terms)
+			fmt.Fprintf(&sb, "%v>=%d@%d;", terms, k.AtLeast, k.Weight)
+		}
+		return sb.String()
+	}
+	before := meaning()
 	for rep := 0; rep < 3; rep++ {
 		model, cost := maxsat.New(cs...).Solve()
-		if fmt.Sprint(arena) != fmt.Sprint(arenaBefore) {
-			return fmt.Errorf("rep %d: maxsat.New/Solve modified the caller's coefficient slices: %v -> %v", rep, arenaBefore, arena)
+		if after := meaning(); after != before {
+			return fmt.Errorf("rep %d: maxsat.New/Solve changed the constraints the caller holds (and uses again): %s -> %s", rep, before, after)
 		}
 		if !feasible {
 			if model != nil {
@@ -445,7 +470,7 @@ func min(a, b int) int {
 func init() {
 	vf.Register(
 		vf.Sub[Case]{Name: "api", Quick: 8000, Thorough: 50000, Gen: genAPI, Check: checkAPI, Floor: 0.25,
-			Rule: "maxsat.New(...).Solve(): 1..10 constraints over <=6 named variables, hard/soft split, weights 1..9; clauses, cardinality constraints (Coeffs nil, degree -1..len+1) and PB constraints with positive coefficients (degree 0..sum+1); the constraint values (coefficient slices carved out of one array) are given to maxsat.New 3 times (map-ordered cost function) and must stay untouched; oracle = brute force; non-trivial = >=1 hard constraint and >=1 soft constraint violated at the optimum"},
+			Rule: "maxsat.New(...).Solve(): 1..10 constraints over <=6 named variables, hard/soft split, weights 1..9; clauses, cardinality constraints (Coeffs nil, degree -1..len+1) and PB constraints with positive coefficients (degree 0..sum+1); the constraint values (coefficient slices carved out of one array) are given to maxsat.New 3 times (map-ordered cost function) and must keep their meaning (each constraint as a set of weighted literals with its degree and weight); oracle = brute force; non-trivial = >=1 hard constraint and >=1 soft constraint violated at the optimum"},
 		vf.Sub[Case]{Name: "hard-pb-systems", Quick: 8000, Thorough: 50000, Gen: genHardPB, Check: checkAPI, Floor: 0.1,
 			Rule: "maxsat.New(...).Solve(): 3..8 mostly hard constraints over 3..7 named variables in a drawn order - clauses, cardinality constraints, and weighted constraints with one dominant coefficient and a degree that the other terms cannot reach (a literal is forced while parsing, the rest of the constraint stays) - plus 0..3 soft unit clauses; same oracle as api"},
 		vf.Sub[Case]{Name: "many-soft-api", Quick: 1000, Thorough: 4000, Gen: genManySoft("api"), Check: checkAPI, Floor: 0.5,
